@@ -555,6 +555,9 @@ fn oracle_c03(rep: &mut Report, c: &EmitCase, em: &Emitted) {
         // URL: every placeholder of the template is fed by the path parameter of that name
         let url = part(s, "url").and_then(|u| u.first()).cloned();
         let path_params: Vec<&hir::Parameter> = o.parameters.iter().filter(|p| p.location == hir::Location::Path).collect();
+        // D: placeholders and `in: path` parameters correspond one-to-one
+        let placeholders: BTreeSet<String> = regex::Regex::new(r"\{([^}]*)\}").unwrap().captures_iter(&o.path).map(|c| c[1].to_string()).collect();
+        if placeholders != path_params.iter().map(|p| p.name.clone()).collect::<BTreeSet<String>>() { rep.bump("c03_outside_D_placeholders_vs_path_parameters"); continue; }
         match url.as_ref().and_then(|u| u.as_list()).map(|l| (l[0].as_atom().unwrap_or("").to_string(), l.to_vec())) {
             Some((k, l)) if k == "literal" => { if l[1].as_str() != Some(o.path.as_str()) || !path_params.is_empty() { rep.oracle_fail("urlWrong", vec![], &case, &format!("{} {}", o.method, o.path)); } else { rep.bump("c03_urls_ok"); } }
             Some((k, l)) if k == "format" => {
